@@ -15,7 +15,7 @@ var round4Texts = map[string]round2Text{
 	"C15": {Explain: "Round 4: the blocked subject of a OneCRL record keeps the octets of the document (it is compared octet for octet), it is not re-marshalled from the decoded name."},
 	"C16": {Explain: "Round 4: R-SHORTREAD — no io.Reader.Read call in the ct and revocation parsers discards its byte count (a short read leaves the rest of the buffer unfilled)."},
 	"C17": {Explain: "Round 4: Scan resets each counter its workers advance before starting them."},
-	"C18": {Explain: "Round 4: R-TABLE — in parseSequenceOf's tag pre-pass the six alternative string tags fold to PrintableString and GeneralizedTime folds to UTCTime, the tag expected for time.Time; R-FRESH — the decoded slice is reflect.MakeSlice on every path; R-PURE for BitString accessors.", NotCov: "The width of a negative *big.Int in makeBigInt (seed C18g is a recorded miss)."},
+	"C18": {Explain: "Round 4: R-TABLE — in parseSequenceOf's tag pre-pass the six alternative string tags fold to PrintableString and GeneralizedTime folds to UTCTime, the tag expected for time.Time; R-FRESH — the decoded slice is reflect.MakeSlice on every path; R-PURE for BitString accessors; R-VSET — makeBigInt returns the bare magnitude octets (no 0xff / 0x00 pad) only behind the branch testing the top bit of the first octet, set for a negative and clear for a positive number.", NotCov: "That the octets themselves are the two's complement of the value (arithmetic); only the pad decision is decided."},
 	"C19": {Explain: "Round 4: a value parsed with parseInt64 is stored only into a destination that is not four bytes wide (those go through parseInt32's range check)."},
 	"C21": {Explain: "Round 4: String.read returns nil only if n is negative or exceeds the remaining length (reading zero octets succeeds)."},
 	"C22": {Explain: "Round 4: makeField raises the invalid-UTF-8 error only past utf8.ValidString == false; the decoder's fresh-slice rule of C18 is adopted (OriginalRDNS keeps the slice it was handed)."},
